@@ -244,33 +244,33 @@ def observe(rid, cfg, tags):
     return row
 
 
-def observe_python_provider(rid, rnd):
+def observe_python_provider(rid, rnd, tags=None, comp=None):
     """behave.active_tag.python / python_feature: the value providers shipped with behave, with their real values"""
     from behave.active_tag.python import ACTIVE_TAG_VALUE_PROVIDER as PY
     from behave.active_tag.python_feature import ACTIVE_TAG_VALUE_PROVIDER as PYF
     from behave.tag_matcher import ActiveTagMatcher, CompositeActiveTagValueProvider
     names = [("python.version", "str", "eq"), ("python.min_version", "ver", "ge"), ("python.max_version", "ver", "le"),
              ("python3", "bool", "eq"), ("python2", "bool", "eq"), ("python.feature.coroutine", "bool", "eq")]
+    if comp is None:
+        comp = rid % 2 == 0
     cats = []
     for name, kind, op in names:
         obj = PY.get(name, PYF.get(name))
         cur = getattr(obj, "value", obj)
         sp = _v(s=cur) if kind == "str" else _v(b=bool(cur)) if kind == "bool" else _v(st=[int(x) for x in cur])
-        cats.append({"name": chars(name), "kind": kind, "op": op, "vo": kind != "str", "mem": 1 if name in PY else 2, "ch": [sp]})
-    vers = ["%d.%d" % PY["python.min_version"].value, "2.7", "3.0", "3.99", "3", "4", "3.x", "", "3.5.1"]
-    bools = ["yes", "no", "true", "False", "maybe"]
-    tags = []
-    for _ in range(rnd.choice([1, 2, 2, 3, 3, 4])):
-        name, kind, op = rnd.choice(names + [("python.unknown", "str", "eq")])
-        tags.append("%s.with_%s=%s" % (rnd.choice(DEFAULT_PREFIXES), name, rnd.choice(bools if kind == "bool" else vers)))
-    comp = rid % 2 == 0
+        cats.append({"name": chars(name), "kind": kind, "op": op, "vo": kind != "str",
+                     "mem": 2 if (comp and name not in PY) else 1, "ch": [sp]})
+    if tags is None:
+        vers = ["%d.%d" % PY["python.min_version"].value, "2.7", "3.0", "3.99", "3", "4", "3.x", "", "3.5.1"]
+        bools = ["yes", "no", "true", "False", "maybe"]
+        tags = []
+        for _ in range(rnd.choice([1, 2, 2, 3, 3, 4])):
+            name, kind, op = rnd.choice(names + [("python.unknown", "str", "eq")])
+            tags.append("%s.with_%s=%s" % (rnd.choice(DEFAULT_PREFIXES), name, rnd.choice(bools if kind == "bool" else vers)))
     row = {"id": rid, "cfg": "python_provider", "P": [chars(p) for p in DEFAULT_PREFIXES], "N": [chars("not"), chars("not_active")],
            "sep": ["="], "tags": [chars(t) for t in tags], "warm": [chars("use.with_python3=yes")],
            "pk": "comp" if comp else "dict", "mpk": ["dict", "dict"] if comp else [], "mk": "single", "nm": 0, "ign": True,
            "judge": True, "cats": cats, "combos": [[1] * len(cats)], "ex": [], "run": [], "ex2": [], "mex": [[]], "exc": []}
-    if not comp:
-        for c in cats:
-            c["mem"] = 1
     ex = run = ex2 = False
     exc = ""
     try:
@@ -319,7 +319,7 @@ def judge_and_report(chk, rows, meta, chunks):
             detail = "tags=%s current=%s cfg=%s(provider=%s,matcher=%s) observed exclude=%s run=%s again=%s members=%s exc=%r" % (
                 json.dumps(m["tags"]), json.dumps(cur, sort_keys=True), row["cfg"], row["pk"], row["mk"], row["ex"][j - 1],
                 row["run"][j - 1], row["ex2"][j - 1], row["mex"][j - 1], row["exc"][j - 1])
-            chk.violation(clause, sig, detail, {"cfg": row["cfg"], "tags": m["tags"], "seed": m.get("seed")})
+            chk.violation(clause, sig, detail, {"cfg": row["cfg"], "tags": m["tags"], "comp": row["pk"] == "comp"})
     return verdicts
 
 
@@ -428,30 +428,9 @@ def replay(chk, payload):
     silence_logging()
     p = payload["replay"]
     if p["cfg"] == "python_provider":
-        rnd = random.Random(0)
-        row, _ = observe_python_provider(1, rnd)
-        # re-run exactly the recorded tag list
-        from behave.active_tag.python import ACTIVE_TAG_VALUE_PROVIDER as PY
-        from behave.active_tag.python_feature import ACTIVE_TAG_VALUE_PROVIDER as PYF
-        from behave.tag_matcher import ActiveTagMatcher
-        merged = dict(PY)
-        merged.update(PYF)
-        row["pk"], row["mpk"] = "dict", []
-        for c in row["cats"]:
-            c["mem"] = 1
-        row["tags"] = [chars(t) for t in p["tags"]]
-        exc = ""
-        ex = run_ = ex2 = False
-        try:
-            m = ActiveTagMatcher(merged)
-            ex = bool(m.should_exclude_with(list(p["tags"])))
-            run_ = bool(m.should_run_with(list(p["tags"])))
-            ex2 = bool(m.should_exclude_with(list(p["tags"])))
-        except Exception as e:
-            exc = type(e).__name__
-        row["ex"], row["run"], row["ex2"], row["exc"] = [ex], [run_], [ex2], [exc]
+        row, _ = observe_python_provider(1, random.Random(0), tags=list(p["tags"]), comp=bool(p.get("comp")))
     else:
-        row = observe(1, CFG[p["cfg"]], p["tags"])
-    judge_and_report(chk, [row], {1: {"tags": p["tags"]}}, chunks=1)
+        row = observe(1, CFG[p["cfg"]], list(p["tags"]))
+    judge_and_report(chk, [row], {1: {"tags": list(p["tags"])}}, chunks=1)
     chk.impl_traces = len(row["combos"])
     chk.sample({"replayed": p, "exclude_per_value_combination": row["ex"]})
